@@ -13,7 +13,7 @@ from vf.models import router as M
 PROPERTY = "C08"
 LEVEL = "exploration"
 SHARDS = {"quick": 4, "thorough": 16}
-REQUIRED = ["route-choice", "path-params", "roundtrip", "wsgi-dispatch", "asgi-dispatch"]
+REQUIRED = ["route-choice", "path-params", "roundtrip", "wsgi-dispatch", "asgi-dispatch", "in-flight-together-equals-alone"]
 RULE = ("Route tables of 1-4 routes built from segment templates (literals 'a','a.b','v1+','a(b)', every convertor, prefix/suffix literals around "
         "placeholders, two placeholders in one segment) in random order; paths generated from the tables (valid instances of each placeholder "
         "language, one-edit near misses, extra/missing segments, trailing newline, empty path, Unicode digits, upper-case uuid, impossible dates, "
@@ -21,7 +21,7 @@ RULE = ("Route tables of 1-4 routes built from segment templates (literals 'a','
         "Router.__call__ on WSGI and on ASGI; one Router object per table serves all its paths, in one order and then reversed, with empty and non-empty root paths "
         "(including a root path equal to the first path segment). Non-trivial = pair where >=2 routes are in the table and the path matches or nearly matches a "
         "typed route; distinct = (table, path).")
-RULE += " Also: non-NFC text, 40% of the tables name every route's placeholders differently and half of those end in a catch-all route (left-over bindings of a failed route become visible)."
+RULE += " Also: 2-5 requests in flight together on one router whose endpoints read their parameters late (generator bodies, endpoints that give way first); non-NFC text, 40% of the tables name every route's placeholders differently and half of those end in a catch-all route (left-over bindings of a failed route become visible)."
 ASSUMPTIONS = [
     "when a path binds to a route in more than one way (e.g. '{x}-{y:int}') only route choice is compared, not parameter values",
     "on WSGI PATH_INFO is the Latin-1 view of the path bytes; the model is applied to the UTF-8 text those bytes stand for (as on ASGI)",
@@ -29,10 +29,11 @@ ASSUMPTIONS = [
 ]
 
 U = "90478484-0988-45fc-91fe-757d90136892"
-SEG_TEMPLATES = ["cafe\u0301", "a", "a.b", "v1+", "a(b)", "[a]", "{N}", "{N:str}", "{N:int}", "{N:decimal}", "{N:uuid}", "{N:date}", "{N:any}",
+SEG_TEMPLATES = ["cafe\u0301", "Ã©", "a", "a.b", "v1+", "a(b)", "[a]", "{N}", "{N:str}", "{N:int}", "{N:decimal}", "{N:uuid}", "{N:date}", "{N:any}",
                  "{N}-{M:int}", "p{N:int}s", "{N:str}.json", "{N:decimal}x", "id-{N:uuid}", "{N:date}T", "a|b", "a$", "^a", "a*"]
 VALID = {
-    "str": ["alice;v=2", ";semi", "x", "a.b", "é", "12", "a b", "x\ny", "%41", " ", "e\u0301", "\u1100\u1161", "caf\u00e9"],
+    "str": ["alice;v=2", ";semi", "x", "a.b", "é", "12", "a b", "x\ny", "%41", " ", "e\u0301", "\u1100\u1161", "caf\u00e9",
+            "Ã©", "cafÃ©", "â\x82¬", "Â"],  # text whose characters, read as Latin-1 bytes, would form UTF-8: it is text already, nothing is to be decoded again
     "int": ["0", "12", "007", "1" * 40, "1" * 400],
     "decimal": ["0", "100", "1.5", "10.50", "0.0", "000", "1.000", "100.0", "12345678901234567890.123"],
     "uuid": [U, "00000000-0000-0000-0000-000000000000"],
@@ -47,7 +48,7 @@ NEAR = {
     "date": ["2021-13-45", "2021-02-30", "0000-01-01", "2021-3-7", "21-03-07", "2021/03/07", "2021-03-07\n", "2023-02-29"],
     "any": [],
 }
-PSEGS = ["alice;v=2", ";x", "a;", "cafe\u0301", "caf\u00e9", "a", "axb", "a.b", "v1+", "v11", "v1", "a(b)", "ab", "[a]", "b", "a|b", "a$", "^a", "a*", "aaa", "", "x-12", "x-y-3", "x-", "-3", "p5s",
+PSEGS = ["Ã©", "cafÃ©", "alice;v=2", ";x", "a;", "cafe\u0301", "caf\u00e9", "a", "axb", "a.b", "v1+", "v11", "v1", "a(b)", "ab", "[a]", "b", "a|b", "a$", "^a", "a*", "aaa", "", "x-12", "x-y-3", "x-", "-3", "p5s",
          "ps", "p5", "f.json", "fxjson", ".json", "1.5x", "id-" + U, U + "T", "2021-03-07T", "a\n", "\na"]
 
 
@@ -294,6 +295,41 @@ def run_pair(ctx, table, path, stale=False, root=""):
     return nt
 
 
+def lazy_routers(routes):
+    """routers whose endpoints look at their parameters late: the WSGI endpoint is a generator (its body runs when the server
+    starts consuming the response, i.e. possibly after other requests were dispatched), the ASGI endpoint first gives way"""
+    import asyncio
+
+    from baize import asgi, wsgi
+
+    def wsgi_endpoint(i):
+        def app(environ, start_response):
+            def body():
+                start_response("200 OK", [("X-Route", str(i))])
+                yield b"route %d " % i
+                yield repr(sorted((k, repr(v)) for k, v in wsgi.Request(environ).path_params.items())).encode()
+            return body()
+        return app
+
+    def asgi_endpoint(i):
+        async def app(scope, receive, send):
+            await asyncio.sleep(0)
+            await send({"type": "http.response.start", "status": 200, "headers": [(b"x-route", str(i).encode())]})
+            await asyncio.sleep(0)
+            await send({"type": "http.response.body", "body": b"route %d " % i, "more_body": True})
+            await send({"type": "http.response.body", "body": repr(sorted((k, repr(v)) for k, v in asgi.Request(scope, receive, send).path_params.items())).encode()})
+        return app
+    return {"wsgi": wsgi.Router(*[(r, wsgi_endpoint(i)) for i, r in enumerate(routes)]), "asgi": asgi.Router(*[(r, asgi_endpoint(i)) for i, r in enumerate(routes)])}
+
+
+def in_flight(ctx, routes, paths, routers=None):
+    from vf import inflight
+    routers = routers or lazy_routers(routes)
+    for iface in ("wsgi", "asgi"):
+        reqs = [drivers.Req(path=p.encode("utf-8")) for p in paths]
+        inflight.check_group(ctx, iface, routers[iface], reqs, "router", {"routes": routes, "in_flight_paths": paths})
+
+
 def make(ctx, routes):
     try:
         return Table(routes)
@@ -311,6 +347,13 @@ def run(ctx):
                 run_pair(ctx, t, path)
             ctx.case((tuple(routes), path))
         ctx.sample("regression-seed", {"routes": REGRESSION[6][0], "path": REGRESSION[6][1]})
+    # ---- the FIRST use in a fresh server process, pre-empted by a second request (one child process per switch point, vf/firstuse.py)
+    if ctx.shard == 0:
+        from vf import firstuse
+        firstuse.explore(ctx, "router", "router", max_points=12 if ctx.quick else 400)
+        ctx.case(("first-use", "router"))
+    else:
+        ctx.mon("first-use-pre-empted(fresh process)", 0)
     ntables = ctx.scale(5000, 500_000)
     for i in range(ntables):
         routes = make_table(rng)
@@ -348,6 +391,14 @@ def run(ctx):
             first.setdefault(path, obs)
             judge(ctx, "wsgi" if rep % 2 == 0 else "asgi", routes, seen, hit, status, exc, {"routes": routes, "path": path, "long_lived_router": True})
         ctx.case(("long-lived", rep, ctx.shard))
+    # ---- several requests in flight on one router, endpoints that read their parameters late (vf/inflight.py)
+    routes = ["/u/{name}", "/n/{id:int}", "/f/{p:any}", "/d/{day:date}/{slot:int}", "/{a}/{b}", "/static"]
+    routers = lazy_routers(routes)
+    for g in range(ctx.scale(60, 3000)):
+        paths = [rng.choice([f"/u/user{rng.randrange(50)}", f"/n/{rng.randrange(1000)}", f"/f/x/{rng.randrange(9)}/y", f"/d/2021-03-{1 + rng.randrange(28):02d}/{rng.randrange(9)}",
+                             f"/p{rng.randrange(9)}/q{rng.randrange(9)}", "/static", "/nope", "/n/x"]) for _ in range(rng.choice([2, 3, 5]))]
+        in_flight(ctx, routes, paths, routers)
+        ctx.case(("in-flight", tuple(paths)))
     # convertor round trip on generated values of each language
     from baize.routing import CONVERTOR_TYPES
     for t, vals in M.CONV.items():
@@ -368,6 +419,10 @@ def run(ctx):
 
 
 def replay(ctx, case):
+    if "in_flight_paths" in case:
+        in_flight(ctx, case["routes"], case["in_flight_paths"])
+        ctx.case(1)
+        return
     if "routes" in case:
         t = make(ctx, case["routes"])
         if t:
